@@ -101,6 +101,8 @@ def alist_lookup(ctx, lexpr):
             return alist.name_value(lexpr, spec[1], spec[2])
         if tag == "atom":
             return alist.mk(lexpr, spec[1])
+        if tag == "bool":
+            return alist.mk(lexpr, "Bool", spec[1])
         if tag == "pair":
             return alist.cons(lexpr, build(spec[1]), build(spec[2]))
         if tag == "list":
@@ -130,11 +132,10 @@ def alist_lookup(ctx, lexpr):
             if e[0] != "pair":
                 continue
             k = e[1]
-            if k[0] != "name":
-                continue
-            if mode == "name" and k[2] == key:
-                return ("some", e[2][2])
-            if mode == "value" and (k[1], k[2]) == key:
+            if mode == "name":
+                if k[0] == "name" and k[2] == key:
+                    return ("some", e[2][2])
+            elif k == key or (k[0] == "name" and isinstance(key, tuple) and len(key) == 2 and (k[1], k[2]) == key):
                 return ("some", e[2][2])
         return "none"
 
@@ -154,11 +155,22 @@ def alist_lookup(ctx, lexpr):
     n = 0
     undecided = []
     lookups = [("name", K, by_name, alist.Str(K))] + [("value", (kind, K), by_value, None) for kind in NAMEK]
+    if ctx.tier == "thorough":
+        # keys that are not names (booleans, the empty list, #nil), a longer list, every atom kind in front
+        atoms = [("atom", k) for k in ("Nil", "Null", "Number", "Char", "Bytes", "Vector")] + [("bool", 0), nv("String", b"x")]
+        lists["every atom kind before the entry"] = ("list", atoms + [("pair", nv("Symbol", K), val(1))], None)
+        lists["non-name keys"] = ("list", [("pair", ("bool", 1), val(1)), ("pair", ("atom", "Null"), val(2)),
+                                           ("pair", ("atom", "Nil"), val(3)), ("pair", ("bool", 0), val(4)),
+                                           ("pair", nv("Symbol", K), val(5))], None)
+        lists["match at the end of a longer list"] = ("list", [("pair", nv("Symbol", b"k%d" % i), val(i)) for i in range(5)]
+                                                      + [("pair", nv("Symbol", K), val(9))], None)
+        lookups += [("value", ("bool", 0), by_value, None), ("value", ("bool", 1), by_value, None),
+                    ("value", ("atom", "Null"), by_value, None), ("value", ("atom", "Nil"), by_value, None)]
     for lname, spec in lists.items():
         for mode, key, fn, karg in lookups:
             S = alist.make_sim(lexpr)
             target = build(spec)
-            keyv = karg if mode == "name" else alist.name_value(lexpr, key[0], key[1])
+            keyv = karg if mode == "name" else (alist.name_value(lexpr, key[0], key[1]) if key[0] in NAMEK else build(key))
             try:
                 ps = S.run(fn, args={1: alist._cell(keyv), 2: alist._cell(target)})
             except sim.Limit:
@@ -167,14 +179,15 @@ def alist_lookup(ctx, lexpr):
             got = alist.outcome(S, ps, tag)
             want = expected(spec, mode, key)
             n += 1
-            desc = "%s, lookup by %s %s" % (lname, mode, key.decode() if mode == "name" else "%s(%s)" % (key[0], key[1].decode()))
+            desc = "%s, lookup by %s %s" % (lname, mode, key.decode() if mode == "name" else
+                                            ("%s(%s)" % (key[0], key[1].decode()) if key[0] in NAMEK else "%s %s" % key))
             if got == {want}:
                 r.ok("%s -> %s" % (desc, want if want == "none" else "entry value %s" % want[1].decode()), fn)
             elif any(isinstance(g, str) and g.startswith("?") for g in got) or len(got) > 1 and want in got:
                 r.note("undecided: %s gives %s" % (desc, sorted(got, key=repr)))
                 undecided.append(desc)
             else:
-                r.violation(fn.path, "alist:%s:%s" % (lname.replace(" ", "-"), mode if mode == "name" else key[0]),
+                r.violation(fn.path, "alist:%s:%s" % (lname.replace(" ", "-"), mode if mode == "name" else (key[0] if isinstance(key[1], bytes) else "%s-%s" % key)),
                             "%s: the lookup answers %s, the documented answer is %s" % (
                                 desc, sorted(got, key=repr), want if want == "none" else "the cdr of the first matching entry (%s)" % want[1].decode()),
                             fn.loc())
